@@ -33,6 +33,10 @@ class ModuleSrc:
                 if any(isinstance(d, ast.Name) and d.id == "overload" for d in node.decorator_list):
                     continue
                 self.funcs[f"{self.modname}:{prefix}{node.name}"] = node
+                # functions defined directly inside this one (closures), as outer.inner
+                for inner in node.body:
+                    if isinstance(inner, (ast.FunctionDef, ast.AsyncFunctionDef)):
+                        self.funcs.setdefault(f"{self.modname}:{prefix}{node.name}.{inner.name}", inner)
             elif isinstance(node, ast.ClassDef):
                 self.classes[f"{self.modname}:{prefix}{node.name}"] = node
                 self._index(node.body, f"{prefix}{node.name}.")
